@@ -840,7 +840,7 @@ def run(ctx: C.Ctx):
         "guard": "single_owner (coq/Device/DListProg.v; harness guard_py cross-checked against it on every case): lists are declared "
                  "before the main loop from a literal or a range comprehension, each under a fresh name; afterwards only append / remove / "
                  "index / by-value read-only call / `x = x`. Outside (listed findings): `b = a` (F-C09-alias-use-after-free, "
-                 "F-C09-alias-double-free, F-C09-clone-divergence-heap-growth), re-assignment from a literal or comprehension (F-C09-reassign-temporary-leak), list first "
+                 "F-C09-alias-double-free, F-C09-clone-divergence-heap-growth, F-C09-clone-divergence-out-of-bounds), re-assignment from a literal or comprehension (F-C09-reassign-temporary-leak), list first "
                  "assigned inside the main loop (F-C09-loop-local-leak), function mutating its list parameter "
                  "(F-C09-byvalue-param-use-after-free). Oracle also requires CPython to run the script without any exception. Programs "
                  "outside the guard still go through the correspondence (the model contains the defects).",
